@@ -394,10 +394,16 @@ def gen_invocation(rng, world_state):
         og2, f2 = spell_offsets(rng, spec["offsets2"], 2)
         groups += og1 + og2
         spec["flags"] = dict(f1, **f2)
-        if rng.random() < 0.35:
+        r2 = rng.random()
+        if r2 < 0.35:
             spec["total"] = rng.choice(["H", "M", "S", "h", "m", "s"])
             groups.append(rng.choice([["--as-total", spec["total"]],
                                       ["--as-total=" + spec["total"]]]))
+        elif r2 < 0.45:
+            # documented duration print format: letters y m d h M s
+            spec["dpf"] = rng.choice(["d", "d,h", "dTh:M:s", "y,m,d,h,M,s",
+                                      "d h M"])
+            groups.append(["--print-format", spec["dpf"]])
         items = [p["text"] for p in spec["points"]]
         if rng.random() < 0.1:
             step["stdin"] = "\n".join(items) + rng.choice(["", "\n"])
@@ -689,8 +695,7 @@ class Sim(object):
                                           out_off)
                     f24.update(H=24, M=0, S=0, us=0)
                     alt = cm.render_strf(strf, f24, out_off, t_us)
-                    if alt is not None:
-                        outs.add(alt)
+                    outs.add(alt if alt is not None else "REFUSE")
                 continue
             if pf is None:
                 out_n = n
@@ -720,8 +725,7 @@ class Sim(object):
                 f24 = cm.civil_fields(mode, t_us - 86400 * 10 ** 6, out_off)
                 f24.update(H=24, M=0, S=0, us=0)
                 alt = cm.render(out_n, f24, out_off)
-                if alt is not None:
-                    outs.add(alt)
+                outs.add(alt if alt is not None else "REFUSE")
         return outs
 
     # ---- the library composed directly (no DateTimeOperator, no main)
@@ -963,6 +967,33 @@ class Sim(object):
                     self.violate("cli_model", "diff", step_no, argv=argv,
                                  got=out, want_total_any_of=[
                                      d / 1e6 / unit for d in wants])
+            elif spec.get("dpf"):
+                # letters y m d h M s are replaced by the components of the
+                # duration; what is judged is the LENGTH they add up to (how
+                # it is split, e.g. "... 24 0" hours/minutes after an
+                # end-of-day operand, is not something the property states)
+                neg, nums = cm.split_printed_numbers(text)
+                letters = [ch for ch in spec["dpf"] if ch in "ymdhMs"]
+                unit = {"d": 86400 * 10 ** 6, "h": 3600 * 10 ** 6,
+                        "M": 60 * 10 ** 6, "s": 10 ** 6}   # microseconds
+                ok = False
+                if len(nums) == len(letters) and all(
+                        n == 0 for n, ch in zip(nums, letters) if ch in "ym"):
+                    printed = sum(n * unit[ch] for n, ch in zip(nums, letters)
+                                  if ch in unit)
+                    finest = min(unit[ch] for ch in letters if ch in unit)
+                    for d in wants:
+                        gap = abs(d) - printed
+                        within = (abs(gap) <= 10 if "s" in letters
+                                  else -10 <= gap < finest + 10)
+                        if within and (neg == (d < 0) or d == 0 or (
+                                printed == 0)):
+                            ok = True
+                if not ok:
+                    self.violate("cli_model", "diff", step_no, argv=argv,
+                                 got=out, want_us_any_of=sorted(wants),
+                                 duration_print_format=spec["dpf"])
+                return
             else:
                 got = cm.parse_printed_duration(text)
                 # sub-second parts are printed from binary floating point
@@ -973,7 +1004,7 @@ class Sim(object):
                                  want_us_any_of=sorted(wants))
         # the property's own words: first + d == second, with the library
         # (adding walks year by year: keep to gaps below ~3000 years)
-        if spec.get("total") or self.facade.fired:
+        if spec.get("total") or spec.get("dpf") or self.facade.fired:
             return
         printed = cm.parse_printed_duration(text)
         if printed is None or abs(printed) > 3000 * 366 * 86400 * 10 ** 6:
